@@ -19,6 +19,7 @@
 #include <cstdlib>
 #include <cstring>
 #include <fcntl.h>
+#include <sys/time.h>
 #include <map>
 #include <string>
 #include <unistd.h>
@@ -118,6 +119,7 @@ struct State {
     std::atomic<uint64_t> curCase{0};
     char crumb[256] = {0};
     uint64_t maxViolDetail = 40;             // stop printing details after this many
+    long cpuBudget = 0;                      // seconds of CPU time per case (single-threaded engines), 0 = none
 };
 inline State &st() { static State s; return s; }
 
@@ -127,7 +129,38 @@ inline void emitLine(const std::string &line) {
     (void) r;
 }
 
-inline void setCase(uint64_t c) { st().curCase.store(c, std::memory_order_relaxed); }
+// Single-threaded, deterministic engines give every case a budget of CPU time (not wall-clock time: load does not
+// count). Their cases take milliseconds, the largest fixed scenarios some tens of seconds; a case that burns the whole
+// budget is a loop that does not end in the code under test, and is reported as such instead of as a timeout.
+inline void cpuBudgetHandler(int) {
+    char buf[1000];
+    int n = snprintf(buf, sizeof buf, "{\"t\":\"viol\",\"prop\":\"%s\",\"rule\":\"no-termination\",\"site\":\"cpu-budget\",\"case\":%" PRIu64 ",\"seed\":%" PRIu64 ",\"detail\":\"the case used up its budget of %ld s of CPU time (cases of this engine take milliseconds to seconds): an operation of the code under test does not return. Last step: ",
+                     st().prop.c_str(), st().curCase.load(), st().seed, st().cpuBudget);
+    for (const char *p = st().crumb; *p && n < 940; ++p)
+        buf[n++] = (*p == '"' || *p == '\\' || (unsigned char) *p < 0x20) ? '?' : *p;
+    n += snprintf(buf + n, sizeof buf - n, "\"}\n");
+    ssize_t r = write(st().outFd, buf, n);
+    (void) r;
+    _exit(6);
+}
+inline void armCpuBudget() {
+    if (st().cpuBudget <= 0) return;
+    struct itimerval it{};
+    it.it_value.tv_sec = st().cpuBudget;
+    setitimer(ITIMER_VIRTUAL, &it, nullptr);
+}
+// called once by the single-threaded engines after init()
+inline void cpuBudgetPerCase(long seconds) {
+    auto it = st().opt.find("cpubudget");
+    st().cpuBudget = it == st().opt.end() ? seconds : strtol(it->second.c_str(), nullptr, 0);
+    if (st().cpuBudget <= 0) return;
+    struct sigaction sa{};
+    sa.sa_handler = cpuBudgetHandler;
+    sa.sa_flags = SA_ONSTACK;
+    sigemptyset(&sa.sa_mask);
+    sigaction(SIGVTALRM, &sa, nullptr);
+}
+inline void setCase(uint64_t c) { st().curCase.store(c, std::memory_order_relaxed); armCpuBudget(); }
 inline void crumb(const char *fmt, ...) {
     va_list ap;
     va_start(ap, fmt);
